@@ -12,7 +12,7 @@ ENTRY = {
     "assumptions": ["SortMapKeys is kept on so that Append(nil,..) is repeatable"],
 }
 CLAIM = {
-    "text": "Theorems (Properties/C15.v) over an explicit backing-array model: encodeBytes for EVERY destination length and capacity yields prefix ++ quoted base64, never writes a prefix cell and never indexes out of range; encodeToString's requote-in-place leaves prefix ++ quoted form only; rollback returns exactly the bytes before the failed value. "
+    "text": "Theorems (Properties/C15.v) over an explicit backing-array model: encodeBytes for EVERY destination length and capacity yields prefix ++ quoted base64, never writes a prefix cell and never indexes out of range, so that what it appends is what it appends to nil and does not depend on capacity or on the bytes beyond len(b) (encode_bytes_oblivious, encode_bytes_cap_irrelevant), the backing array being replaced exactly when the spare capacity is below the encoded size and then by one of exactly the needed capacity (encode_bytes_realloc_iff, encode_bytes_realloc_cap); encodeToString's requote-in-place leaves prefix ++ quoted form only; rollback returns exactly the bytes before the failed value. "
             "The whole-Append contract (all values, prefix lengths, spare capacities, flags, error cases, AppendEscape/AppendUnescape) is decided by the differential harness against Append(nil, ...).",
     "note": "Partial at proof level: the reflection-driven encoder is not modelled; the theorems cover the only three sites with hand-written capacity arithmetic, one of them (encodeBytes) tied to the code by exact correspondence. Trusted: Coq kernel, extraction+driver, harness, Go's built-in append.",
 }
